@@ -376,22 +376,19 @@ Proof.
 Qed.
 
 (** predict_unfitted_errors *)
-Theorem predict_unfitted_errors : forall o C p (s : state) (arg : V),
-  predict C = Some p -> predict_ok C = true -> fresh C s -> call o p s arg = None.
+Theorem predict_unfitted_errors : forall o C p f (s : state) (arg : V),
+  predict C = Some p -> fit C = Some f -> predict_ok C = true -> fresh C s -> call o p s arg = None.
 Proof.
-  intros o C p s arg Hp Hok Hf. unfold predict_ok in Hok. rewrite Hp in Hok.
-  assert (G : forall g M, match g with [] => false | _ => true end = true ->
-              forallb (fun a => mem a M && negb (mem a (ctor_attrs C))) g = true ->
-              forallb (defined s) g = false).
-  { intros [|a t] M H1 H2; [discriminate|]. cbn in H2. apply andb_true_iff in H2 as [H2 _].
+  intros o C p f s arg Hp Hfit Hok Hf. unfold predict_ok in Hok. rewrite Hp, Hfit in Hok.
+  assert (G : forall g M, guard_ok C M g = true -> forallb (defined s) g = false).
+  { intros [|a t] M H; [discriminate|]. unfold guard_ok in H. cbn in H. apply andb_true_iff in H as [H2 _].
     apply andb_true_iff in H2 as [_ H2]. apply negb_true_iff in H2. cbn. unfold defined at 1.
     rewrite (Hf a H2). reflexivity. }
+  destruct (fit_sets C) as [[D M]|]; [|discriminate].
   destruct p as [|c1 c2| | | | | | |g]; try discriminate.
-  - destruct c1; try discriminate. destruct (fit_sets C) as [[D M]|]; [|discriminate].
-    apply andb_true_iff in Hok as [Hok _]. apply andb_true_iff in Hok as [H1 H2].
-    unfold call. cbn [exec]. rewrite (G g M H1 H2). reflexivity.
-  - destruct (fit_sets C) as [[D M]|]; [|discriminate]. apply andb_true_iff in Hok as [H1 H2].
-    unfold call. cbn [exec]. rewrite (G g M H1 H2). reflexivity.
+  - destruct c1; try discriminate. apply andb_true_iff in Hok as [H1 _].
+    unfold call. cbn [exec]. rewrite (G g M H1). reflexivity.
+  - unfold call. cbn [exec]. rewrite (G g M Hok). reflexivity.
 Qed.
 
 (** read-only methods leave the estimator unchanged and depend only on
